@@ -258,6 +258,8 @@ class RateStick(ExactSolver):
 
         if self.alpha < 0:
             raise ValueError('Alpha must be >= 0')
+        if self.alpha == 0:
+            raise ValueError('Alpha = 0 is not supported (dt ~ dx**2/alpha)')
 
         if self.IC not in [1, 2, 3]:
             raise ValueError('IC must be 1, 2 or 3')
